@@ -1,5 +1,7 @@
 import LinOp.Core.Parse
 import LinOp.C19.Model
+import LinOp.C19.PairModel
+import LinOp.Generated.C19Guards
 /-! Line-protocol driver for the C19 shape-guard model.
 `<fn> <shapeA> <shapeB>` → `ok <shape>` | `ok` | `err <kind>`; shapes are comma lists, `-` = (). -/
 open LinOp LinOp.C19 LinOp.Parse
@@ -72,12 +74,24 @@ def stepLine (_ : Unit) (line : String) : Unit × String :=
         else if fn = "addT" then showRes (Impl.addTensorGuard a b)
         else if fn = "adddiag" then showRes (Impl.addDiagonalGuard a b)
         else if fn = "adddiagspec" then showOpt (Spec.addDiagonalShape? a b)
+        else if fn = "bdpair" then showRes (Impl.blockDiagPairMatmul a b)
+        else if fn = "diagpair" || fn = "cdadd" then
+          (match a.reverse, b.reverse with
+           | n :: Ar, m :: Br =>
+             if fn = "diagpair" then showRes (Impl.diagPairMatmul Ar.reverse n Br.reverse m)
+             else showRes (Impl.constantDiagPairAdd Ar.reverse n Br.reverse m)
+           | _, _ => "bad-op")
+        else if fn = "square" then showUnit (Impl.squareGuard (a != [0]) b)
         else "bad-op"
       | _, _ => "bad-op"
     | ["solveleft", a, b, l] =>
       match parseNats? a, parseNats? b, parseNats? l with
       | some a, some b, some l => showRes (Impl.solveLeft a b l)
       | _, _, _ => "bad-op"
+    | ["squareof", c, m, a] =>
+      match parseNats? a, LinOp.Generated.C19.mros.lookup c with
+      | some a, some mro => showUnit (Impl.squareGuardOf LinOp.Generated.C19.squareGuards mro m a)
+      | _, _ => "bad-op"
     | ["toeplitz", n, i, j] =>
       match n.toNat?, i.toInt?, j.toInt? with
       | some n, some i, some j => s!"ok {Impl.toeplitzIndex n i j}"
